@@ -61,6 +61,8 @@ def obligations(ck, t):
                           ("stores", "all_stores", "all_stores_ok gen = true"),
                           ("skeleton", "skeleton", "skeleton_ok gen = true"),
                           ("optimized", "optimized", "optimized_ok gen = true"),
+                          ("mixed", "mixed_refused", "mixed_ok gen = true"),
+                          ("frame", "frame", "frame_ok gen = true"),
                           ("select", "select", "select_ok gen = true"),
                           ("zero", "zero_cells_ok", "zero_ok gen = true"),
                           ("precision", "builder_precision_ok", "precision_ok gen = true"),
@@ -79,7 +81,7 @@ def obligations(ck, t):
 
 def diagnostics(ck):
     txt = HDR + ("Eval vm_compute in (failing_tables gen).\nEval vm_compute in (failing_builder gen).\n"
-                 "Eval vm_compute in (not_refused gen).\nEval vm_compute in (failing_select gen).\nEval vm_compute in (failing_popsel gen).\nEval vm_compute in (failing_zero gen).\nEval vm_compute in (failing_precision gen).\nEval vm_compute in (failing_strings gen).\nEval vm_compute in (failing_optimized gen, skeleton_ok gen).\nEval vm_compute in (groups_ok gen, none_ok gen, units_ok gen, kinds_covered gen).\n")
+                 "Eval vm_compute in (not_refused gen).\nEval vm_compute in (failing_select gen).\nEval vm_compute in (failing_popsel gen).\nEval vm_compute in (failing_mixed gen, failing_frame gen).\nEval vm_compute in (failing_zero gen).\nEval vm_compute in (failing_precision gen).\nEval vm_compute in (failing_strings gen).\nEval vm_compute in (failing_optimized gen, skeleton_ok gen).\nEval vm_compute in (groups_ok gen, none_ok gen, units_ok gen, kinds_covered gen).\n")
     ok, res, out = ck.coq_eval("Diag_C05.v", txt)
     return res if ok else ["diagnostics failed: " + out[-300:]]
 
@@ -572,6 +574,165 @@ def rename_population(n, old, new):
             c["target"] = c["target"].replace("../%s[" % old, "../%s[" % new).replace("../%s/" % old, "../%s/" % new)
 
 
+# ------------------------------------------------------------------------------------------------- negative clause: mixed synapses
+def mixed_synapse_cases():
+    """deterministic, every run: one projection whose connections do NOT all use the same synapse (electrical) / pre or post
+    component (continuous) -- the format stores one per projection, so the writer has to refuse.  The deviating connection sits
+    at the first, a middle and the last position of EVERY connection list, alone in the projection and next to the other lists.
+    (Chemical connections carry no synapse of their own: nothing to mix.) -> (label, spec)"""
+    out = []
+    for kind, key, vs, fields in (("electrical", "electrical", ("E", "EI", "EIW"), ("synapse",)),
+                                  ("continuous", "continuous", ("K", "KI", "KIW"), ("pre_component", "post_component"))):
+        base = {"synapse": "gj1", "pre_component": "silent1", "post_component": "gs1"}
+        other = {"synapse": "gj2", "pre_component": "gs2", "post_component": "gs2"}
+        for li, v in enumerate(vs):
+            for fld in fields:
+                for pos in (0, 1, 2):
+                    for across in (False, True):
+                        s = base_spec()
+                        n = s["networks"][0]
+                        conns = []
+                        k = 0
+                        for lj, w in enumerate(vs):
+                            if lj != li and not across:
+                                continue
+                            for q in range(3):
+                                plain = w in ("E", "K")
+                                c = {"v": w, "id": k, "pre": str(q) if plain else "../pB/%d/iaf" % q, "post": str((q + 1) % 3) if plain else "../pB/%d/iaf" % ((q + 1) % 3)}
+                                if w in ("EIW", "KIW"):
+                                    c["weight"] = 1.5
+                                for f in fields:
+                                    c[f] = base[f]
+                                if lj == li and q == pos:
+                                    c[fld] = other[fld]
+                                conns.append(c)
+                                k += 1
+                        n[key].append({"id": "mx", "pre": "pB", "post": "pB", "conns": conns})
+                        out.append(("%s:%s:%s:pos%d:%s" % (kind, v, fld, pos, "across" if across else "alone"), s))
+    return out
+
+
+# ------------------------------------------------------------------------------------------------- frame clause: write histories
+def history_base():
+    s = full_spec()
+    n = s["networks"][0]
+    n["projections"][0]["conns"] = [
+        {"v": "C", "id": 0, "pre": "../pA[1]", "post": "../pB/2/iaf", "pre_segment_id": 1, "post_segment_id": 2, "pre_fraction_along": 0.25, "post_fraction_along": 0.75},
+        {"v": "W", "id": 1, "pre": "../pA[2]", "post": "../pB/0/iaf", "pre_segment_id": 0, "post_segment_id": 1, "pre_fraction_along": 0.5, "post_fraction_along": 0.125,
+         "weight": 0.5, "delay": "2ms"}]
+    n["electrical"][0]["conns"] = [
+        {"v": "EI", "id": 0, "pre": "../pB/0/iaf", "post": "../pB/1/iaf", "synapse": "gj1", "pre_segment": 1, "post_segment": 0, "pre_fraction_along": 0.25, "post_fraction_along": 0.5},
+        {"v": "EIW", "id": 1, "pre": "../pB/1/iaf", "post": "../pB/2/iaf", "synapse": "gj1", "pre_segment": 0, "post_segment": 2, "pre_fraction_along": 0.5, "post_fraction_along": 0.75, "weight": 2.0}]
+    n["continuous"][0]["conns"] = [
+        {"v": "KI", "id": 0, "pre": "../pB/0/iaf", "post": "../pB/1/iaf", "pre_component": "silent1", "post_component": "gs1", "pre_segment": 1, "post_segment": 0,
+         "pre_fraction_along": 0.25, "post_fraction_along": 0.5},
+        {"v": "KIW", "id": 1, "pre": "../pB/1/iaf", "post": "../pB/2/iaf", "pre_component": "silent1", "post_component": "gs1", "pre_segment": 0, "post_segment": 2,
+         "pre_fraction_along": 0.5, "post_fraction_along": 0.75, "weight": 3.0}]
+    n["input_lists"][0]["inputs"] = [{"v": "I", "id": 0, "target": "../pA[1]", "segment_id": 1, "fraction_along": 0.25},
+                                     {"v": "IW", "id": 1, "target": "../pA[2]", "segment_id": 0, "fraction_along": 0.75, "weight": 1.5}]
+    return s
+
+
+def _rows(n):
+    for p in n["projections"]:
+        for c in p["conns"]:
+            yield "proj", c
+    for k in ("electrical", "continuous"):
+        for p in n[k]:
+            for c in p["conns"]:
+                yield k, c
+    for p in n["input_lists"]:
+        for c in p["inputs"]:
+            yield "il", c
+
+
+def _swap_form(ref, comp="iaf"):
+    import re
+    m = re.match(r"\.\./(\w+)\[(\d+)\]$", ref)
+    if m:
+        return "../%s/%s/%s" % (m.group(1), m.group(2), comp)
+    m = re.match(r"\.\./(\w+)/(\d+)/\w+$", ref)
+    if m:
+        return "../%s[%s]" % (m.group(1), m.group(2))
+    return ref
+
+
+def _shift_cell(ref, by=1, mod=3):
+    import re
+    m = re.match(r"(\.\./\w+\[)(\d+)(\])$", ref) or re.match(r"(\.\./\w+/)(\d+)(/\w+)$", ref) or re.match(r"()(\d+)()$", ref)
+    return "%s%d%s" % (m.group(1), (int(m.group(2)) + by) % mod, m.group(3))
+
+
+EDITS = ["cells", "path-form", "segments", "fractions", "weights", "delays", "input-targets", "population-size", "instances", "ids"]
+
+
+def edited(spec, what):
+    s = json.loads(json.dumps(spec))
+    n = s["networks"][0]
+    for kind, c in _rows(n):
+        if what == "cells" and kind != "il":
+            c["pre"], c["post"] = _shift_cell(c["pre"]), _shift_cell(c["post"], 2)
+        elif what == "path-form" and kind != "il":
+            c["pre"], c["post"] = _swap_form(_shift_cell(c["pre"])), _swap_form(_shift_cell(c["post"]))
+        elif what == "input-targets" and kind == "il":
+            c["target"] = _swap_form(_shift_cell(c["target"], 1, 5)) if c["v"] == "I" else _shift_cell(c["target"], 2, 5)
+        elif what == "segments":
+            for k in ("pre_segment_id", "post_segment_id", "pre_segment", "post_segment", "segment_id"):
+                if k in c:
+                    c[k] = c[k] + 2
+        elif what == "fractions":
+            for k in ("pre_fraction_along", "post_fraction_along", "fraction_along"):
+                if k in c:
+                    c[k] = 1.0 - c[k] / 2
+        elif what == "weights" and "weight" in c:
+            c["weight"] = c["weight"] * 4 + 0.25
+        elif what == "delays" and "delay" in c:
+            c["delay"] = "0.007s"
+        elif what == "ids":
+            c["id"] = c["id"] + 10
+    if what == "population-size":
+        n["populations"][0]["size"] = 9
+    if what == "instances":
+        n["populations"][1]["instances"] = [[0, 9.5, 8.5, 7.5], [1, 6.5, 5.5, 4.5], [2, 3.5, 2.5, 1.5], [3, 0.5, 0.25, 0.125]]
+    return s
+
+
+def history_cases(r, nrandom):
+    """(label, spec, edited spec, first use) : deterministic part = every first use x every class of edit; random part =
+    generated documents whose numbers / cell references are perturbed"""
+    out = []
+    b = history_base()
+    for action in ("write", "summary", "str", "xml"):
+        for what in EDITS:
+            out.append(("%s-then-edit-%s" % (action, what), b, edited(b, what), action))
+    for i in range(nrandom):
+        spec, expect = gen_doc(r, 200000 + i)
+        if expect != "same":
+            continue
+        s2 = json.loads(json.dumps(spec))
+        n = s2["networks"][0]
+        sizes = dict((p["id"], len(p["instances"]) or p["size"]) for p in n["populations"])
+        pops = dict((p["id"], p) for p in n["populations"])
+        for kk, rk in (("projections", "conns"), ("electrical", "conns"), ("continuous", "conns")):
+            for p in n[kk]:
+                for c in p[rk]:
+                    for e, pid in (("pre", p["pre"]), ("post", p["post"])):
+                        j = r.randrange(sizes[pid])
+                        c[e] = str(j) if c["v"] in ("E", "K") else cellref(r, pops[pid], j)
+                    for k in list(c):
+                        if k.endswith("fraction_along"):
+                            c[k] = fract(r)
+                        elif "segment" in k:
+                            c[k] = r.randint(0, 5)
+                    if "delay" in c:
+                        c["delay"] = delay(r)
+        for il in n["input_lists"]:
+            for c in il["inputs"]:
+                c["target"] = cellref(r, pops[il["population"]], r.randrange(sizes[il["population"]]))
+        out.append(("random-%d" % i, spec, s2, r.choice(["write", "summary", "str"])))
+    return out
+
+
 def population_class_cases():
     """deterministic, every run: populations WITH instances x type in {unset, population, populationList} x size in {unset,
     = number of instances, another number}, and sized populations x the same types -> (label, spec, expect).
@@ -976,6 +1137,33 @@ def run(ck):
         if not r["verdict"]["ok"]:
             report_all(ck, "only one field off its default (%s)" % label, spec, r)
 
+    # ---- every run (negative clause): mixed synapses / components in every connection list at every position must be refused
+    mx = mixed_synapse_cases()
+    res = ck.impl("c05_impl.py", {"cases": [{"spec": s, "modes": ["plain"], "expect": "refuse"} for _, s in mx]}, timeout=900)["results"]
+    for (label, spec), rr in zip(mx, res):
+        r = rr["plain"]
+        ck.count(1, nontrivial_key="mixed:" + label)
+        ck.tally("mixed_synapse_refusal")
+        if not r["verdict"]["ok"]:
+            report_all(ck, "connections with different synapses / components in one projection (%s)" % label, spec, r, expect="refuse",
+                       reason="mixed-" + ":".join(label.split(":")[:2]))
+
+    # ---- every run (frame clause): use the document once, edit it in place, write again: the EDITED document must come back
+    hc = history_cases(ck.rng, ck.n(12, 150))
+    res = ck.impl("c05_impl.py", {"cases": [{"spec": a, "after_spec": b, "action": act, "modes": ["plain"], "expect": "same"} for _, a, b, act in hc]},
+                  timeout=1500)["results"]
+    for (label, a, b, act), rr in zip(hc, res):
+        r = rr["plain"]
+        ck.count(1, nontrivial_key="history:" + label)
+        ck.tally("write_history:" + act)
+        if not r["verdict"]["ok"]:
+            v = r["verdict"]
+            for k, d in keys_of(v.get("diff", []), v, r["stage"], r["error"]):
+                k = k.replace("C05:", "C05:stale-after-%s:" % act)
+                ck.witness(k, "document used once (%s), edited in place, written again (%s): %s" % (act, label, k),
+                           input={"spec": a, "after_spec": b, "action": act, "mode": "plain", "expect": "same"},
+                           expected="the loaded document describes the edited document", observed={"stage": r["stage"], "error": r["error"], "diff": d[:6]})
+
     # ---- every run: every class of population (instances / sized) x type attribute x size
     pc = population_class_cases()
     res = ck.impl("c05_impl.py", {"cases": [{"spec": s, "modes": ["plain", "optimized"], "expect": e} for _, s, e in pc]}, timeout=900)["results"]
@@ -1011,7 +1199,7 @@ def run(ck):
         correspondence(ck, t, ck.n(150, 1200))
 
     # ---- generated documents over the full quantifier
-    n = ck.n(220, 3000)
+    n = ck.n(180, 3000)
     specs = [gen_doc(ck.rng, i) for i in range(n)]
     nopt = ck.n(40, 300)
     B = 150
@@ -1082,6 +1270,9 @@ def replay(ck, data):
         print(json.dumps(data, indent=1)[:4000])
         return 0
     mode = inp.get("mode", "plain")
-    res = ck.impl("c05_impl.py", {"cases": [{"spec": spec, "modes": [mode], "expect": inp.get("expect", "same"), "want_after": True}]}, timeout=300)["results"][0][mode]
+    case = {"spec": spec, "modes": [mode], "expect": inp.get("expect", "same"), "want_after": True}
+    if inp.get("after_spec") is not None:
+        case.update(after_spec=inp["after_spec"], action=inp.get("action", "write"))
+    res = ck.impl("c05_impl.py", {"cases": [case]}, timeout=300)["results"][0][mode]
     print(json.dumps({"key": data.get("key"), "stage": res["stage"], "error": res["error"], "verdict": res["verdict"]}, indent=1)[:6000])
     return 0 if res["verdict"]["ok"] else 1
